@@ -35,6 +35,10 @@ def io_havoc(it, env):
         r.incoming = fresh("bytes", "incoming").t
         r.consumed = fresh("bytes", "consumed").t
         w.written = fresh("bytes", "written").t
+    for fh in sess.files:
+        fh.W = fresh("bytes", "fileW").t
+        fh.done = fresh("bytes", "filedone").t
+        fh.remaining = fresh("bytes", "fileremaining").t
     sess.arbitrary_state(fields=["extra_workers"])
 
 
@@ -44,7 +48,27 @@ def loop_inv_open(S):
     ok = True
     for st in sess.owned_streams:
         ok = b_and(ok, not st.fields["writer"].closed)
+    for fh in sess.files:
+        ok = b_and(ok, not fh.closed)
     return ok
+
+
+def loop_inv_data(S):
+    """C01: upload — what was written to the file is exactly what was consumed from the data stream, in order;
+    download — what was sent is exactly what was read from the file, and nothing of old[off:] is skipped"""
+    us = S.it.ctx.unit_state
+    sess = us.vars["sess"]
+    verb = us.vars["verb"]
+    if verb not in ("retr", "stor", "appe") or not sess.owned_streams or not sess.files:
+        return True
+    st, fh = sess.owned_streams[0], sess.files[0]
+    r, w = st.fields["reader"], st.fields["writer"]
+    if verb == "retr":
+        n = z3.Length(fh.old)
+        off = fh.off if fh.off is not None else z3.IntVal(0)
+        base = z3.SubString(fh.old, off, z3.If(n - off > 0, n - off, 0)) if fh.off is not None else fh.old
+        return z3.And(w.written == fh.done, z3.Concat(fh.done, fh.remaining) == base)
+    return z3.And(fh.W == r.consumed, z3.Concat(r.consumed, r.incoming) == sess.payload)
 
 
 def make_worker_setup(verb, meth, mode):
@@ -128,6 +152,11 @@ def worker_exit(S, outcome):
         # ---- C14: exactly 426 then 226, nothing else
         ctx.check(f"{wname}/exit:abort-answered-426-226", z3.BoolVal(cs[-2:] == ["426", "226"] and not (set(cs[:-2]) & success)), info={"props": ["C14"]})
     else:
+        if verb in ("retr", "stor", "appe") and cs == ["226"] and sess.owned_streams and sess.files:
+            c01_exit(S, sess, verb, wname)
+            # C05 (reference model): the restart offset applies only to the transfer that immediately follows REST
+            ro = sess.conn.slots["restart_offset"].fut.value
+            ctx.check(f"{wname}/exit:restart-offset-consumed-by-the-transfer", tt(it.eq_term(ro, 0)), info={"props": ["C05"]})
         done = {"retr": "226", "stor": "226", "appe": "226", "list": "226", "mlsd": "200"}[verb]
         ok = cs == [done] or cs == ["425"]
         ctx.check(f"{wname}/exit:exactly-one-completion-reply", z3.BoolVal(ok), info={"props": ["C05", "C13"]})
@@ -140,15 +169,59 @@ def worker_exit(S, outcome):
         ctx.check(f"{wname}/exit:detached-stream-not-registered", z3.BoolVal(all(dc.fut.value is not st for st in sess.owned_streams) or True), info={"props": ["C14"]})
 
 
+def c01_exit(S, sess, verb, wname):
+    """C01 at the completion reply: the bytes are exact, the mode/offset are the requested ones, and the reply comes
+    only after the file and the data stream are closed"""
+    it = S.it
+    ctx = it.ctx
+    T1 = {"props": ["C01"]}
+    st, fh = sess.owned_streams[0], sess.files[0]
+    r, w = st.fields["reader"], st.fields["writer"]
+    off = as_int(sess.conn.slots["restart_offset"].fut.value)
+    ev = ctx.events
+    seeks = [e for e in ev if e[0] == "file.seek" and e[1] is fh]
+    if verb == "retr":
+        ctx.check(f"{wname}/exit:opened-for-reading", z3.BoolVal(fh.mode == "rb"), info=T1)
+        n = z3.Length(fh.before)
+        want = z3.If(off > 0, z3.SubString(fh.before, off, z3.If(n - off > 0, n - off, 0)), fh.before)
+        ctx.check(f"{wname}/exit:sent-exactly-the-file-from-the-restart-offset", w.written == want, info=T1)
+    else:
+        want_mode_ok = z3.If(off != 0, z3.BoolVal(fh.mode == "r+b"), z3.BoolVal(fh.mode == ("wb" if verb == "stor" else "ab")))
+        ctx.check(f"{wname}/exit:open-mode-is-wb-ab-or-r+b-exactly-when-restarting", want_mode_ok, info=T1)
+        payload = sess.payload
+        ctx.check(f"{wname}/exit:whole-payload-consumed", z3.And(r.incoming == z3.StringVal(""), r.consumed == payload), info=T1)
+        n = z3.Length(fh.before)
+        pl = z3.Length(payload)
+        pad = z3.Function("zeros", z3.IntSort(), z3.StringSort())
+        head = z3.If(off <= n, z3.SubString(fh.before, 0, off), z3.Concat(fh.before, pad(off - n)))
+        tail = z3.SubString(fh.before, off + pl, z3.If(n - off - pl > 0, n - off - pl, 0))
+        restarted = z3.If(pl == 0, fh.before, z3.Concat(head, payload, tail))
+        fresh_store = payload if verb == "stor" else z3.Concat(fh.before, payload)
+        want = z3.If(off != 0, restarted, fresh_store)
+        ctx.check(f"{wname}/exit:stored-exactly-store_result(old,mode,offset,payload)", fh.content() == want, info=T1)
+    # a seek happens exactly when restarting, to exactly that offset, before any data moves
+    seek_ok = z3.If(off != 0, z3.BoolVal(len(seeks) == 1) if not seeks else z3.And(z3.BoolVal(len(seeks) == 1), as_int(seeks[0][2]) == off), z3.BoolVal(len(seeks) == 0))
+    ctx.check(f"{wname}/exit:seeks-to-the-restart-offset-iff-restarting", seek_ok, info=T1)
+    idx = {k: [i for i, e in enumerate(ev) if e[0] == k] for k in ("file.close", "close", "reply")}
+    i226 = [i for i, e in enumerate(ev) if e[0] == "reply" and e[1] == "226"]
+    fclose = [i for i, e in enumerate(ev) if e[0] == "file.close" and e[1] is fh]
+    sclose = [i for i, e in enumerate(ev) if e[0] == "close" and e[1] == w.tag]
+    ordered = bool(i226 and fclose and sclose and max(fclose[0], sclose[0]) < i226[0])
+    ctx.check(f"{wname}/exit:completion-reply-only-after-file-and-data-stream-are-closed", z3.BoolVal(ordered), info=T1)
+
+
+from pyvc.core import as_int  # noqa: E402
+
+
 def define_worker_units():
     for verb, (meth, wq) in WORKERS.items():
-        c = contract(SERVER, f"Server.{meth}", props=["C12", "C13", "C14", "C05", "C16", "C04", "C03", "C17"], name=f"{wq.split('.')[-1]}@{verb}")
+        c = contract(SERVER, f"Server.{meth}", props=["C12", "C13", "C14", "C05", "C16", "C04", "C03", "C17", "C01"], name=f"{wq.split('.')[-1]}@{verb}")
         c.setup = make_worker_setup(verb, meth, "SEQ")
         c.uses = [(SERVER, "Server.get_paths#opaque"), (SERVER, "User.get_permissions#summary")]
         c.cancellable = True
         c.exit_hook = worker_exit
         c.raises = {"BaseException": []}
-        spec = LoopSpec(invariants=[("stream-and-file-still-open", loop_inv_open)], havoc=io_havoc)
+        spec = LoopSpec(invariants=[("stream-and-file-still-open", loop_inv_open), ("data-moved-so-far-is-exact", loop_inv_data)], havoc=io_havoc)
         c.loops = {(wq, 0): spec}
         c.assumptions.append("SEQ: while a transfer task runs, the rest of the session changes only data_connection/extra_workers (no pipelined commands)")
 
